@@ -220,7 +220,7 @@ func main() {
 			out.Flush()
 			res, hung := runOne(&c, -1, tape.Replay(c.Tape), limit)
 			emit(res)
-			if hung {
+			if hung || res.MustExit {
 				os.Exit(0)
 			}
 		case "range":
@@ -233,7 +233,7 @@ func main() {
 				out.Flush()
 				res, hung := runOne(&c, run, tape.New(c.Seed, uint64(run)), limit)
 				emit(res)
-				if hung {
+				if hung || res.MustExit {
 					os.Exit(0)
 				}
 			}
